@@ -104,174 +104,9 @@ def run(prog: Program, ctx: Ctx) -> None:  # noqa: PLR0912,PLR0915
             n += events.check_protocol(prog, ctx, "R2", f, recursive_calls=("self.generic_visit",), domains={d: set(dom) for d in disc} if f is hf else None)
     ctx.expect_min("R2", n, 7)
 
-    # ------------------------------------------------------------------ R3 span provenance
-    ctx.rule("R3", "line spans come from the node being handled: endlineno=<node>.end_lineno; lineno=<node>.lineno or the first decorator's line "
-                   "when decorators exist; decorator and docstring spans come from their own sub-node; Object.lines slices [lineno-1:endlineno]")
-    n_spans = 0
-    for f in [m for defs in vis.methods.values() for m in defs]:
-        node_param = next((p for p in f.params if p == "node"), None)
-        for var, cls, call, st in events.constructions(prog, f):
-            if cls == "Module" or node_param is None:
-                continue
-            n_spans += 1
-            end = kwarg(call, "endlineno")
-            ctx.ob("R3", key(f, f"{cls}:endlineno"), end is not None and unparse(end) == f"{node_param}.end_lineno",
-                   f"{cls}(endlineno=...) is `{unparse(end) if end else None}` (must be {node_param}.end_lineno)", where(f, call))
-            ln = kwarg(call, "lineno")
-            ctx.ob("R3", key(f, f"{cls}:lineno"), ln is not None and _lineno_ok(f, ln, node_param),
-                   f"{cls}(lineno=...) is `{unparse(ln) if ln else None}` (must be {node_param}.lineno, or the first decorator's line under a non-empty decorator list)", where(f, call))
-        for c in calls_in(f.node):
-            if prog.resolve(f.module, dotted(c.func) or "") == "_griffe.models.Decorator":
-                n_spans += 1
-                ln, end = kwarg(c, "lineno"), kwarg(c, "endlineno")
-                sub = dotted(ln.value) if isinstance(ln, ast.Attribute) else None
-                ok = sub is not None and isinstance(ln, ast.Attribute) and ln.attr == "lineno" and isinstance(end, ast.Attribute) and end.attr == "end_lineno" \
-                    and dotted(end.value) == sub and c.args and sub in {n.id for n in ast.walk(c.args[0]) if isinstance(n, ast.Name)} | _defs_names(f, c.args[0])
-                ctx.ob("R3", key(f, f"Decorator-span:{norm(c, 50)}"), ok, "decorator value and span come from the same decorator node", where(f, c))
-    ctx.expect_min("R3", n_spans, 8)
+    # R3 (span provenance), R4 (runtime flag) and R5 (tie-break) used to be decided on the shape of the handlers' code; they are now decided by
+    # the extraction table R10 on the handlers' behaviour (every definition x context x duplicate), which does not depend on how the code is written.
     gd = prog.function("_griffe.agents.nodes.docstrings.get_docstring")
-    rets = [r for r in walk_no_nested(gd.node) if isinstance(r, ast.Return) and isinstance(r.value, ast.Tuple) and not all(isinstance(e, ast.Constant) for e in r.value.elts)]
-    ok = len(rets) == 1 and len(rets[0].value.elts) == 3 and isinstance(rets[0].value.elts[0], ast.Attribute) and rets[0].value.elts[0].attr == "value" \
-        and [getattr(e, "attr", None) for e in rets[0].value.elts[1:]] == ["lineno", "end_lineno"] \
-        and len({dotted(e.value) for e in rets[0].value.elts if isinstance(e, ast.Attribute)}) == 1
-    ctx.ob("R3", key(gd, "docstring-span"), ok, "docstring text, lineno and end_lineno come from the same string constant", where(gd))
-    vgd = prog.function(f"{V}._get_docstring")
-    ok = False
-    for c in calls_in(vgd.node):
-        if prog.resolve(vgd.module, dotted(c.func) or "") == "_griffe.models.Docstring":
-            unpack = [s for s in walk_no_nested(vgd.node) if isinstance(s, ast.Assign) and isinstance(s.targets[0], ast.Tuple) and isinstance(s.value, ast.Call)
-                      and (dotted(s.value.func) or "") == "get_docstring"]
-            if unpack:
-                names = [unparse(e) for e in unpack[0].targets[0].elts]
-                ok = len(names) == 3 and c.args and unparse(c.args[0]) == names[0] and unparse(kwarg(c, "lineno")) == names[1] and unparse(kwarg(c, "endlineno")) == names[2]
-    ctx.ob("R3", key(vgd, "docstring-span-forwarded"), ok, "the (value, lineno, endlineno) triple is forwarded to Docstring in that order", where(vgd))
-    ol = prog.function("_griffe.models.Object.lines")
-    slices = [n for n in walk_no_nested(ol.node) if isinstance(n, ast.Subscript) and isinstance(n.slice, ast.Slice)]
-    ok = len(slices) == 1 and unparse(slices[0].slice.lower).replace(" ", "") == "self.lineno-1" and unparse(slices[0].slice.upper) == "self.endlineno" and slices[0].slice.step is None
-    ctx.ob("R3", key(ol, "slice-bounds"), ok, "Object.lines returns lines[lineno-1:endlineno] (1-based inclusive span)", where(ol))
-
-    # ------------------------------------------------------------------ R4 runtime flag
-    ctx.rule("R4", "every object built by the visitor carries runtime=not self.type_guarded; the type-guard flag is scoped: saved before it is "
-                   "raised, raised for the body of `if TYPE_CHECKING:` only, restored to the saved value on every exit")
-    n_rt = 0
-    for f in [m for defs in vis.methods.values() for m in defs]:
-        for var, cls, call, st in events.constructions(prog, f):
-            if cls == "Module":
-                continue
-            n_rt += 1
-            rt = kwarg(call, "runtime")
-            ctx.ob("R4", key(f, f"{cls}:runtime:{_branch_of(call)}"), rt is not None and unparse(rt) == "not self.type_guarded",
-                   f"{cls}(...) built in {f.name} passes runtime=not self.type_guarded (got {unparse(rt) if rt else 'nothing'})", where(f, call))
-    ctx.expect_min("R4", n_rt, 6)
-    writers = []
-    for f in prog.functions.values():
-        for nn in walk_no_nested(f.node):
-            if isinstance(nn, ast.Attribute) and nn.attr == "type_guarded" and isinstance(nn.ctx, ast.Store):
-                writers.append((f, nn))
-    ctx.expect_min("R4", len(writers), 2)
-    for f in {w[0].qualname: w[0] for w in writers}.values():
-        if f.name == "__init__":
-            st = [stmt_of(nn) for ff, nn in writers if ff is f]
-            ctx.ob("R4", key(f, "flag-init-false"), all(isinstance(s.value, ast.Constant) and s.value.value is False for s in st), "the flag starts False", where(f))
-            continue
-        ctx.ob("R4", key(f, "flag-writer"), f.cls is vis and f.name == "visit_if", f"type_guarded is written only by the `if` handler (found in {f.qualname})", where(f))
-        cfg = cfg_of(f)
-        saves = [x for x in cfg.live_nodes() if x.kind == "stmt" and isinstance(x.stmt, ast.Assign) and unparse(x.stmt.value) == "self.type_guarded"
-                 and isinstance(x.stmt.targets[0], ast.Name)]
-        ctx.ob("R4", key(f, "flag-saved"), len(saves) == 1, "the previous flag value is saved in a local", where(f))
-        if len(saves) != 1:
-            continue
-        saved = saves[0].stmt.targets[0].id
-        stores = [x for x in cfg.live_nodes() if x.kind == "stmt" and isinstance(x.stmt, ast.Assign) and any(unparse(t) == "self.type_guarded" for t in x.stmt.targets)]
-
-        def is_restore(x, saved=saved):
-            return x in stores and unparse(x.stmt.value) == saved
-
-        for s in stores:
-            ctx.ob("R4", key(f, f"saved-before-store:{norm(s.stmt, 60)}"), cfg.dominated_by_node(s, lambda x: x is saves[0]), "the flag is saved before any store", where(f, s.stmt))
-            if is_restore(s):
-                continue
-            starts = [b for b, lab in cfg.succ[s] if lab != "exc"]
-            leak = cfg.reach(starts, avoid=is_restore, normal_only=True) & {cfg.exit}
-            ctx.ob("R4", key(f, f"restored-after:{norm(s.stmt, 60)}"), not leak, "after raising the flag every normal exit restores the saved value (a nested `if` cannot un-guard the enclosing block)", where(f, s.stmt))
-            # the raised value must be confined to the body
-            val = s.stmt.value
-            body_only = any(isinstance(c, ast.Compare) and isinstance(c.ops[0], ast.In) and unparse(c.comparators[0]).endswith(".body") for c in ast.walk(val))
-            const_true = isinstance(val, ast.Constant) and val.value is True
-            if const_true:
-                # accepted only if the visit that follows covers the body alone
-                nxt = cfg.reach(starts, avoid=is_restore, normal_only=True)
-                visits_all = any(x.kind == "stmt" and any(isinstance(c, ast.Call) and dotted(c.func) == "self.generic_visit" for c in walk_no_nested(x.stmt, include_self=True)) for x in nxt if x.stmt is not None)
-                body_only = not visits_all
-            ctx.ob("R4", key(f, f"body-only:{norm(s.stmt, 60)}"), body_only or unparse(val) == saved,
-                   "the flag is raised for the statements of the `if` body only (the else branch runs at runtime)", where(f, s.stmt))
-        # guard recognised only for module/class level ifs and both spellings
-        spell = {c.value for c in ast.walk(f.node) if isinstance(c, ast.Constant) and isinstance(c.value, str) and "TYPE_CHECKING" in c.value}
-        ctx.ob("R8", key(f, "TYPE_CHECKING-spellings"), {"TYPE_CHECKING", "typing.TYPE_CHECKING"} <= spell, f"both spellings of the guard are recognised (found {sorted(spell)})", where(f))
-
-    # ------------------------------------------------------------------ R5 tie-break
-    ctx.rule("R5", "later definitions win, except that an assignment inside if/except does not displace an existing member: the `continue` that "
-                   "keeps the existing member is dominated by `name in parent.members` and by the if/except-parent test; every other path of the "
-                   "loop body reaches set_member")
-    cfg = cfg_of(ha)
-    loops = [x for x in cfg.live_nodes() if x.kind == "for" and isinstance(x.stmt, ast.For) and unparse(x.stmt.iter) == "names"]
-    if len(loops) != 1:
-        raise AnalysisError("C01-R5: name loop of handle_attribute not found")
-    lp = loops[0]
-    tv = unparse(lp.stmt.target)
-    body = cfg.reach([b for b, lab in cfg.succ[lp] if lab == "T"], avoid=lambda x: x is lp, normal_only=True)
-    conts = [x for x in body if isinstance(x.stmt, ast.Continue)]
-    sets = [x for x in body if x.kind == "stmt" and any(isinstance(c, ast.Call) and isinstance(c.func, ast.Attribute) and c.func.attr == "set_member" for c in walk_no_nested(x.stmt, include_self=True))]
-    ctx.ob("R5", key(ha, "set_member-in-loop"), len(sets) == 1, "one set_member per extracted name", where(ha, lp.stmt))
-    n_keep = 0
-    for c in conts:
-        facts = cfg.facts_on_all_paths(c)
-        texts = {(t, v) for t, v in facts}
-        dotted_skip = (f"'.' in {tv}", True) in texts
-        present = any(t.replace(" ", "") == f"{tv}inparent.members" and v for t, v in texts)
-        cond_parent = any(v and t.startswith("isinstance(node.parent") and "ast.If" in t and "ast.ExceptHandler" in t for t, v in texts)
-        if dotted_skip:
-            ctx.ob("R5", key(ha, "skip:dotted-name"), True, "dotted targets (x.y = ...) are skipped", where(ha, c.stmt))
-            continue
-        n_keep += 1
-        ctx.ob("R5", key(ha, "keep-existing:dominated"), present and cond_parent,
-               "the `continue` that keeps an existing member is reached only when the name already exists AND the assignment sits in an if/except block"
-               if present and cond_parent else f"a `continue` skips set_member without both conditions (facts: {sorted(texts)})", where(ha, c.stmt))
-    ctx.ob("R5", key(ha, "keep-existing:exists"), n_keep == 1, f"exactly one keep-existing arm (found {n_keep})", where(ha, lp.stmt))
-    if sets:
-        # every path through the body that is not one of the tabled `continue`s reaches set_member
-        starts = [b for b, lab in cfg.succ[lp] if lab == "T"]
-        leak = cfg.reach(starts, avoid=lambda x: x in sets or x in conts, normal_only=True)
-        ctx.ob("R5", key(ha, "later-wins"), lp not in leak and cfg.exit not in leak, "on every other path the new attribute replaces the member (later definitions win)", where(ha, sets[0].stmt))
-
-    # imports: a later import always rebinds the name, except for the tabled self-alias cases
-    for hname, tabled in (("visit_import", ()), ("visit_importfrom", ("is_init_module", "alias_path != "))):
-        f = prog.function(f"{V}.{hname}")
-        cfg_i = cfg_of(f)
-        lps = [x for x in cfg_i.live_nodes() if x.kind == "for" and isinstance(x.stmt, ast.For) and unparse(x.stmt.iter) == "node.names"]
-        if len(lps) != 1:
-            raise AnalysisError(f"C01-R5: name loop of {hname} not found")
-        lpi = lps[0]
-        sm = [x for x in cfg_i.live_nodes() if x.kind == "stmt" and any(isinstance(c, ast.Call) and isinstance(c.func, ast.Attribute) and c.func.attr == "set_member"
-                                                                       for c in walk_no_nested(x.stmt, include_self=True))]
-
-        def tabled_edge(a, _b, label, tabled=tabled):
-            if a.kind != "test" or a.expr is None or label not in "TF":
-                return False
-            txt = unparse(a.expr)
-            # the tabled skip is the branch that does NOT lead to the alias: T of the init-module special case, F of the self-alias guard
-            if "is_init_module" in txt and "is_init_module" in tabled and label == "T":
-                return True
-            return bool(txt.startswith("alias_path != ") and "alias_path != " in tabled and label == "F")
-
-        starts = [b for b, lab in cfg_i.succ[lpi] if lab == "T"]
-        leak = cfg_i.reach(starts, avoid=lambda x: x in sm, avoid_edge=tabled_edge, normal_only=True)
-        ok = lpi not in leak and cfg_i.exit not in leak
-        ctx.ob("R5", key(f, "import-rebinds"), ok,
-               "every imported name (re)binds its member: the only skips are the tabled self-alias cases (later statements win, also over an earlier "
-               "definition or a type-guarded import of the same name)" if ok else
-               "an iteration of the import loop can skip set_member outside the tabled self-alias cases: a later import would not displace the earlier binding",
-               where(f, lpi.stmt))
 
     # ------------------------------------------------------------------ R9 never raising on unsupported node kinds
     ctx.rule("R9", "no KeyError from the node-kind lookup tables (unsupported target / expression kinds) escapes a visitor handler")
@@ -369,6 +204,33 @@ def run(prog: Program, ctx: Ctx) -> None:  # noqa: PLR0912,PLR0915
             if isinstance(k, ast.Constant) and k.value in ("functools.cached_property", "cached_property.cached_property"):
                 labs = {e.value for e in ast.walk(v) if isinstance(e, ast.Constant)}
                 ctx.ob("R8", f"stdlib_decorators|{k.value}", "property" in labs, f"{k.value} is labelled as a property (so it becomes an Attribute): {sorted(labs)}", f"{vm.relpath}:{k.lineno}")
+
+    # ------------------------------------------------------------------ R10 extraction table
+    from sa.tables import extraction
+
+    ctx.rule("R10", "extraction table: the visitor evaluated on generated modules (every supported definition in every block context at module and "
+                    "class level, instance attributes in __init__, every ordered pair of definitions of one name with the second in a plain or "
+                    "conditional position) yields one member per bound name with the kind of the surviving binding, line span (decorators "
+                    "included) that slices out the definition, decorators and their spans, docstring text and span, attribute docstrings, "
+                    "runtime flag, right parent; every object announced exactly once, parent first, members-complete after the last member")
+    ex = extraction.Extraction(prog)
+    n10 = 0
+    seen10: set[str] = set()
+    gm = prog.function(f"{V}.get_module")
+    for label, src in extraction.corpus(ctx.tier == "thorough"):
+        res = ex.visit(src)
+        n10 += 1
+        problems = [res] if isinstance(res, str) else extraction.compare(src, extraction.reference(src), *res)
+        if problems:
+            cls_key = f"{label.split('|')[0]}|{problems[0].split(': ', 1)[-1][:70]}"
+            if cls_key in seen10:
+                continue
+            seen10.add(cls_key)
+            ctx.ob("R10", f"extract-class|{cls_key}", False, f"{label}: {problems[0]}" + (f" (+{len(problems) - 1} more)" if len(problems) > 1 else ""), where(gm), {"source": src, "problems": problems[:6]})
+        else:
+            ctx.ob("R10", f"extract|{label}", True, f"{label}: members, kinds, spans, docstrings, flags and announcements agree with the source", where(gm))
+    ctx.expect_min("R10", n10, 400)
+    ctx.analysed["extraction_modules"] = n10
 
 
 def _branch_of(node: ast.AST) -> str:
